@@ -133,11 +133,14 @@ pub fn run(a: &Args) -> i32 {
         let hkey = format!("helper|{}", text);
         rep.case(if v.is_number() { Some(&hkey) } else { None });
         rep.count("direct-helper-call");
-        if direct != want {
+        // an unsigned integer above i64::MAX: the statement speaks of 64-bit SIGNED integers and is silent here; what the
+        // helpers do with it is compared with the model below, not demanded
+        let beyond_i64 = v.is_u64() && !v.is_i64();
+        if direct != want && !beyond_i64 {
             rep.fail("deserialize_id-wrong", json!({"input": v, "expected": want, "got": direct}));
         }
         let want_opt: Option<Option<String>> = if v.is_null() { Some(None) } else { want.clone().map(Some) };
-        if opt != want_opt {
+        if opt != want_opt && !beyond_i64 {
             rep.fail("deserialize_option_id-wrong", json!({"input": v, "expected": want_opt, "got": opt}));
         }
         if ctx.model.available() {
@@ -208,6 +211,12 @@ pub fn run(a: &Args) -> i32 {
     }
     let (tokens, modules) = match (&res.real, res.modules) {
         (RealOutcome::Ok(t), Some(m)) => (t.clone(), m),
+        // the generator succeeded but the extractor cannot read a construct of the emitted code: a broken tie (the
+        // IR-based oracles cannot run), not a refusal of the input
+        (RealOutcome::Ok(_), None) => {
+            rep.disagree(json!({"what": "the emitted tokens could not be read into the IR", "file": "c16.rs"}));
+            return rep.finish();
+        }
         (other, _) => {
             rep.fail("generation-failed", json!({"outcome": format!("{:?}", other), "schema": sdl, "query": qtext}));
             return rep.finish();
@@ -230,12 +239,36 @@ pub fn run(a: &Args) -> i32 {
         }
     }
     let code = CaseCode { id: 0, prelude: String::new(), tokens, ops: vec![("Q".into(), "q".into())], enums: vec![], no_serialize: false };
-    let build = build_consumer("c16", &[code], true, &[]);
+    // the same operation generated under `normalization = rust`: `ID` keeps its name and its coercion there too
+    let mut codes = vec![code];
+    {
+        let mut ropts = Opts::harness();
+        ropts.normalization_rust = true;
+        let r = ctx.run(&sdl, false, &qtext, &ropts);
+        if !r.diffs.is_empty() {
+            rep.disagree(json!({"what": "IR (normalization rust)", "diffs": r.diffs.iter().take(6).collect::<Vec<_>>()}));
+        }
+        match (&r.real, &r.modules) {
+            (RealOutcome::Ok(t), Some(m)) if !m.is_empty() => {
+                check_attachment(&mut rep, &m[0].items, &shapes, "sdl-with-builtin-scalars/normalization-rust");
+                codes.push(CaseCode { id: 1, prelude: String::new(), tokens: t.clone(), ops: vec![("Q".into(), "q".into())], enums: vec![], no_serialize: false });
+            }
+            (RealOutcome::Ok(_), _) => rep.disagree(json!({"what": "the emitted tokens could not be read into the IR", "file": "c16.rs", "options": "normalization rust"})),
+            (other, _) => rep.fail("generation-failed", json!({"options": "normalization rust", "outcome": format!("{:?}", other).chars().take(300).collect::<String>()})),
+        }
+    }
+    let n_codes = codes.len();
+    let build = build_consumer("c16", &codes, true, &[]);
+    for cid in 0..n_codes {
+        if !build.compiled.contains(&cid) {
+            rep.fail("id-positions-do-not-compile", json!({"normalization_rust": cid == 1, "errors": build.failed.get(&cid), "global": build.global_errors, "schema": sdl, "query": qtext}));
+        }
+    }
     if !build.compiled.contains(&0) {
-        rep.fail("id-positions-do-not-compile", json!({"errors": build.failed.get(&0), "global": build.global_errors, "schema": sdl, "query": qtext}));
         remove_consumer(&build);
         return rep.finish();
     }
+    let rust_too = build.compiled.contains(&1);
     let exe = build.exe.clone().unwrap();
     if ctx.model.available() {
         ctx.model.ask(&tagged("env-set", vec![atom("0"), list(modules[0].items.clone()), list(vec![])]));
@@ -293,12 +326,17 @@ pub fn run(a: &Args) -> i32 {
             vs.push(V { position, shape: i, value: None, payload: mk(base_holder(None, Some(i))) });
         }
     }
-    let requests: Vec<(usize, String, String, String)> = vs.iter().map(|v| (0usize, "de".to_string(), "Q".to_string(), v.payload.to_string())).collect();
+    let mut runs: Vec<(usize, &V)> = vs.iter().map(|v| (0usize, v)).collect();
+    if rust_too {
+        runs.extend(vs.iter().map(|v| (1usize, v)));
+    }
+    let requests: Vec<(usize, String, String, String)> = runs.iter().map(|(cid, v)| (*cid, "de".to_string(), "Q".to_string(), v.payload.to_string())).collect();
     let replies = run_consumer(&exe, &requests);
-    for (v, raw) in vs.iter().zip(replies.iter()) {
+    for ((cid, v), raw) in runs.iter().zip(replies.iter()) {
+        let cid = *cid;
         let t = &shapes[v.shape];
         let reply = parse_reply(raw);
-        let key = format!("{}|{}|{:?}", v.position, t.render(), v.value);
+        let key = format!("{}|{}|{:?}|{}", v.position, t.render(), v.value, cid);
         let nontrivial = v.value.as_ref().map(|x| x.is_number() || x.is_array()).unwrap_or(false);
         rep.case(if nontrivial { Some(&key) } else { None });
         rep.count(&format!("position:{}", v.position));
@@ -307,7 +345,7 @@ pub fn run(a: &Args) -> i32 {
             Some(x) => id_accepts(t, x),
             None => !t.is_non_null(), // an absent key is fine exactly at nullable positions
         };
-        let case = json!({"position": v.position, "graphql_type": t.render(), "value": v.value, "payload": v.payload, "implementation_reply": raw, "schema": sdl, "query": qtext});
+        let case = json!({"position": v.position, "graphql_type": t.render(), "value": v.value, "payload": v.payload, "implementation_reply": raw, "schema": sdl, "query": qtext, "normalization_rust": cid == 1});
         match &reply {
             Reply::Ok(reser) => {
                 if !should_accept {
@@ -327,10 +365,12 @@ pub fn run(a: &Args) -> i32 {
             }
             Reply::Other(o) => rep.internal.push(format!("consumer reply: {}", o)),
         }
-        let m = model_rt(&mut ctx.model, 0, "ResponseData", &v.payload);
-        match tie(&reply, &m) {
-            None => rep.traces_validated += 1,
-            Some(d) => rep.disagree(json!({"what": "serde model", "case": case, "difference": d})),
+        if cid == 0 {
+            let m = model_rt(&mut ctx.model, 0, "ResponseData", &v.payload);
+            match tie(&reply, &m) {
+                None => rep.traces_validated += 1,
+                Some(d) => rep.disagree(json!({"what": "serde model", "case": case, "difference": d})),
+            }
         }
         if rep.samples.len() < 5 && nontrivial && rep.evaluations % 311 == 9 {
             rep.sample(json!({"position": v.position, "graphql_type": t.render(), "rust_helper_type": rust_ty_sexp(t).render(), "value": v.value, "reply": raw.chars().take(120).collect::<String>()}));
